@@ -46,6 +46,7 @@ type vzConfig struct {
 	maxSteps         int
 	// fault rates, per thousand scheduler steps (0 = kind disabled in this run)
 	rDup, rReplay, rEarlyTimer, rCrash, rPartition, rCorrupt, rEquivocate, rStall int
+	rLull                                                                         int // per cent, drawn every 16th step: inputs pause until the nodes are quiet, then C11 currency is judged
 	rCancel                                                                       int // cancel the context of a message handler in flight (a p2p validator deadline)
 	oracles                                                                       map[string]bool
 }
@@ -90,6 +91,10 @@ type vzWorld struct {
 	pendingCrash bool
 
 	lastFaultStep int
+	lullBehind    map[int]bool   // messages behind whose delivery a lull is especially telling
+	phAccepted    map[uint64]int // height -> proposed headers a node has accepted (H-NODE: the one node)
+	lull          int            // 0 = normal, 1 = inputs paused and draining, 2 = view snapshots requested
+	lullSnaps     []*vzLullSnap
 	handlerSends  map[string]int
 	handlerCancel map[int]context.CancelFunc // running message handlers, by message id
 	handlerLast   map[int]string             // the request each running handler made last
@@ -205,7 +210,7 @@ func (w *vzWorld) newLogger() *slog.Logger {
 }
 
 func newVzWorld(s *vsimcore.Sim, cfg vzConfig) *vzWorld {
-	w := &vzWorld{s: s, cfg: cfg, handlerSends: map[string]int{}, handlerCancel: map[int]context.CancelFunc{}, handlerLast: map[int]string{}, lastErr: map[string]string{}, blocked: map[[2]int]bool{}, stalled: map[int]int{}, seenProposals: map[string][]string{}}
+	w := &vzWorld{s: s, cfg: cfg, handlerSends: map[string]int{}, handlerCancel: map[int]context.CancelFunc{}, handlerLast: map[int]string{}, lullBehind: map[int]bool{}, lastErr: map[string]string{}, blocked: map[[2]int]bool{}, stalled: map[int]int{}, seenProposals: map[string][]string{}}
 	privVals := tmconsensustest.DeterministicValidatorsEd25519(cfg.nVal)
 	for i := range privVals {
 		privVals[i].Val.Power = cfg.powers[i]
@@ -832,6 +837,15 @@ func (w *vzWorld) inject(from int, to []int, cm tmcodec.ConsensusMessage, kind s
 func (w *vzWorld) deliver(m *vzMsg) {
 	nd := w.nodes[m.to]
 	w.mu.Lock()
+	hint := w.lullBehind[m.id]
+	w.mu.Unlock()
+	if w.cfg.rLull > 0 && m.kind == "ph" && w.lull == 0 && w.s.Pct("lull-after-proposal", map[bool]int{false: 15, true: 70}[hint]) {
+		// a proposed header merges previous-commit votes into the committing view: pause right behind it
+		w.lull = 1
+		w.s.Probe("lull_started")
+		w.s.Logf("lull: inputs pause behind m%d", m.id)
+	}
+	w.mu.Lock()
 	down := nd.down || nd.dead
 	ready := nd.ready
 	ndctx := nd.ctx
@@ -909,6 +923,14 @@ func (o vzObservedHandler) HandleProposedHeader(ctx context.Context, ph tmconsen
 	if ctx.Err() == nil {
 		o.w.s.Logf("m%d %d->%d ph %d/%d => %s", o.m.id, o.m.from, o.m.to, ph.Header.Height, ph.Round, r)
 		o.w.orc.onHandled(o.nd, o.m, "ph", r.String())
+		if r == tmconsensus.HandleProposedHeaderAccepted {
+			o.w.mu.Lock()
+			if o.w.phAccepted == nil {
+				o.w.phAccepted = map[uint64]int{}
+			}
+			o.w.phAccepted[ph.Header.Height]++
+			o.w.mu.Unlock()
+		}
 	}
 	return r
 }
@@ -976,6 +998,14 @@ func (w *vzWorld) run(done func() bool, extra func() []vsimcore.Action) (stalled
 			stalledNodes[fmt.Sprintf("n%d.", k)] = true
 		}
 		w.mu.Unlock()
+		if w.lull == 0 && w.cfg.rLull > 0 && s.Steps%16 == 0 && s.Pct("lull", w.cfg.rLull) {
+			w.lull = 1
+			s.Probe("lull_started")
+			s.Logf("lull: inputs pause")
+		}
+		if w.lull > 0 {
+			stalledNodes = nil // a lull waits for every node, slow ones included
+		}
 		acts := s.ParkActions(func(name string) int {
 			for p := range stalledNodes {
 				if strings.HasPrefix(name, p) {
@@ -984,6 +1014,23 @@ func (w *vzWorld) run(done func() bool, extra func() []vsimcore.Action) (stalled
 			}
 			return 3
 		})
+		if w.lull > 0 {
+			// Inputs have stopped: no delivery, no adversary action, no restart, no fault, no timer.
+			// Only what is already inside the nodes runs on, in seeded order, until nothing is left.
+			if len(acts) > 0 {
+				s.Pick(acts)
+				continue
+			}
+			if w.lull == 1 {
+				w.lull = 2
+				w.requestLullSnaps()
+				continue
+			}
+			w.judgeLull()
+			w.lull = 0
+			s.Logf("lull: inputs resume")
+			continue
+		}
 		w.mu.Lock()
 		for i, m := range w.inflight {
 			if w.linkBlocked(m.from, m.to) || w.stalled[m.to] > 0 {
@@ -1166,12 +1213,81 @@ func (w *vzWorld) maybeFault(live []*vzTimer, nActs int) (fireTimerEarly bool) {
 
 // shutdown stops every node and waits for the goroutines (still inside the bubble).
 // finalChecks runs the end-of-run oracles (before the verdict is checkpointed).
+type vzLullSnap struct {
+	nd   *vzNode
+	inc  int
+	v, c tmconsensus.VersionedRoundView
+	err  error
+	done chan struct{}
+}
+
+// requestLullSnaps asks every running correct node's mirror for its own voting and committing views.
+func (w *vzWorld) requestLullSnaps() {
+	w.lullSnaps = nil
+	for _, nd := range w.nodes {
+		w.mu.Lock()
+		e, dead, down, inc := nd.e, nd.dead, nd.down, nd.inc
+		w.mu.Unlock()
+		if nd.byz || e == nil || dead || down || e.m == nil {
+			continue
+		}
+		sn := &vzLullSnap{nd: nd, inc: inc, done: make(chan struct{})}
+		w.lullSnaps = append(w.lullSnaps, sn)
+		ctx, m := nd.ctx, e.m
+		go func() {
+			defer close(sn.done)
+			if sn.err = m.VotingView(ctx, &sn.v); sn.err == nil {
+				sn.err = m.CommittingView(ctx, &sn.c)
+			}
+		}()
+	}
+}
+
+// judgeLull: nothing is parked any more, so every consumer has been handed whatever was pending.
+func (w *vzWorld) judgeLull() {
+	for _, sn := range w.lullSnaps {
+		select {
+		case <-sn.done:
+		default:
+			w.s.Probe("lull_snapshot_unanswered")
+			continue
+		}
+		w.mu.Lock()
+		same := sn.nd.inc == sn.inc && !sn.nd.down && !sn.nd.dead
+		w.mu.Unlock()
+		if sn.err != nil || !same {
+			continue
+		}
+		w.s.Probe("lull_judged")
+		w.orc.checkConsumersCurrent(sn.nd, &sn.v, &sn.c)
+	}
+	w.lullSnaps = nil
+}
+
 func (w *vzWorld) finalChecks() {
+	if (w.endReason == "done" || w.endReason == "quiescent") && !w.s.Failed() && !w.s.Expired() {
+		// let whatever is still inside the nodes finish (a commit may be between two store writes)
+		for i := 0; i < 3000; i++ {
+			vsimcore.Wait()
+			ps := w.s.Parked()
+			if len(ps) == 0 {
+				break
+			}
+			w.s.Release(ps[0])
+		}
+		vsimcore.Wait()
+	}
 	for _, nd := range w.nodes {
 		if !nd.byz {
 			w.orc.checkStoredHeadersIntact(nd)
 			if w.endReason == "done" || w.endReason == "quiescent" {
 				w.orc.checkRejectedReplaysLeftNoTrace(nd) // every replay has been answered by now
+				w.mu.Lock()
+				up := nd.e != nil && !nd.dead && !nd.down
+				w.mu.Unlock()
+				if up {
+					w.orc.checkPositionInStep(nd)
+				}
 			}
 		}
 	}
